@@ -120,3 +120,9 @@ Theorem C03_convert_gfm_model_safe_inert_xhtml : forall xc c src o, unsafe c = f
   ConvertModelX xc c src = Ok o -> InertX o.
 Proof. exact ConvertModelX_safe_inert_xhtml. Qed.
 Print Assumptions C03_convert_gfm_model_safe_inert_xhtml.
+
+(* and with extension.Footnote (model/FootnoteI.v; no run-time check: props/C16.v) *)
+Require Import GM.model.FootnoteI GM.proofs.FootnoteWf.
+Theorem C03_convert_footnote_model_safe_inert : forall c src o, unsafe c = false -> bytes_ok src -> ConvertModelFn c src = Ok o -> Inert o.
+Proof. exact ConvertModelFn_safe_inert. Qed.
+Print Assumptions C03_convert_footnote_model_safe_inert.
